@@ -21,6 +21,21 @@ void run_case(const Case& c) {
     }
 }
 
+//! weighted choice that spreads small byte values over all options (the few hundred big cases should not all take
+//! the first option because short / small-valued buffers are common); a zero byte still selects option 0
+size_t spread_weighted(pbt::Source& src, std::initializer_list<unsigned> w) {
+    unsigned tot = 0;
+    for (unsigned x : w) tot += x;
+    unsigned r = ((src.u8() * 167u) & 255u) * tot / 256u;
+    size_t i = 0;
+    for (unsigned x : w) {
+        if (r < x) return i;
+        r -= x;
+        ++i;
+    }
+    return w.size() - 1;
+}
+
 void decode_mem_details(pbt::Source& src, Case& c) {
     c.mem_own = src.boolean();
     c.mem_x = (unsigned)src.range(0, 4);
@@ -163,29 +178,31 @@ PBT_PROPERTY(sort_big) {
     Case c;
     Shape sh;
     c.big = true;
-    c.rep = (int)src.weighted({3, 2, 3, 2, 2});
+    c.rep = (int)spread_weighted(src, {3, 2, 3, 2, 2});
     static const int BA[] = {A_CE3, A_CI3, A_FRONT, A_CE2, A_CI2, A_CE0, A_MKQS};
-    c.algo = BA[src.weighted({4, 4, 3, 1, 1, 1, 1})];
+    c.algo = BA[spread_weighted(src, {4, 4, 3, 1, 1, 1, 1})];
     c.lcp = src.boolean();
-    c.memclass = (int)src.weighted({4, 0, 0, 5, 1});
+    c.memclass = (int)spread_weighted(src, {4, 0, 0, 5, 1});
     static const int STY[] = {S_DOMINANT, S_RANDOM, S_MIXED, S_FEWDISTINCT};
-    sh.style = STY[src.weighted({4, 3, 2, 1})];
+    sh.style = STY[spread_weighted(src, {4, 3, 2, 1})];
     set_alphabet(sh, src.u8() % 25);
     uint64_t seed = src.bits(4);
-    unsigned nsel = (unsigned)src.weighted({5, 1, 1, 1});
-    size_t n = 65536 + (size_t)src.range(0, 4464);
+    unsigned nsel = (unsigned)spread_weighted(src, {5, 1, 1, 1});
+    size_t n = 65536 + (size_t)(((src.bits(2) * 40503u) ^ (seed * 2654435761u >> 7)) & 0xFFFFu) % 4465;
     if (nsel == 1) n = 65536;
     else if (nsel == 2) n = 65535;
     else if (nsel == 3) n = 65537;
     decode_mem_details(src, c);
-    sh.maxtail = (size_t)src.range(0, 12);
-    sh.distinct = 1 + (size_t)src.range(0, 63);
-    sh.dominant_pct = 100 - (unsigned)src.range(0, 5);
-    unsigned psel = src.u8();
+    // secondary shape parameters are expanded from the seed (short buffers would leave them all zero)
+    PrngRnd aux(seed ^ 0xC03C03C03ull);
+    sh.maxtail = (size_t)aux.below(13);
+    sh.distinct = 1 + (size_t)aux.below(64);
+    sh.dominant_pct = 100 - (unsigned)aux.below(6);
+    unsigned psel = (unsigned)aux.below(256);
     sh.prefix_len = sh.style == S_DOMINANT ? 2 + psel % 39 : sh.style == S_RANDOM ? 0 : psel % 21;
     sh.maxlen = 80;
-    unsigned tstyle = (unsigned)src.weighted({3, 2, 2});
-    unsigned samode = (unsigned)src.weighted({5, 2, 0});
+    static const unsigned TS[] = {0, 0, 0, 1, 1, 2, 2}, SM[] = {0, 0, 0, 0, 0, 1, 1};
+    unsigned tstyle = TS[aux.below(7)], samode = SM[aux.below(7)];
     if ((c.rep == R_UPTR || c.rep == R_SUFFIX) && c.algo == A_FRONT) c.algo = A_CE3;
     if (sh.style == S_RANDOM && sh.k == 1) sh.k = 2; // geometric shrinking of buckets needs >= 2 symbols
     // make the memory fall-back inside the 16-bit loops (a bucket >= 65536 at stack level j that may not be pushed) likely:
